@@ -567,6 +567,17 @@ func (s *IndexedState) SearchForIDs(ctx *Context, pattern Map) ([]string, error)
 	Log(DEBUG, ctx, "IndexedState.SearchForIDs", "location", s.Name, "pattern", pattern)
 	terms := ExtractTerms(ctx, pattern)
 
+	if len(terms) == 0 {
+		// A pattern without indexable terms (say {} or
+		// {"?k":1}) can match any fact, so every fact is a
+		// candidate.
+		ids := make([]string, 0, len(s.IdToFact))
+		for id := range s.IdToFact {
+			ids = append(ids, id)
+		}
+		return ids, nil
+	}
+
 	ids, err := s.FactIndex.Search(ctx, terms)
 
 	return ids, err
